@@ -43,13 +43,20 @@ fn root_str(acc: &BitmapAccumulator) -> String {
 	}
 }
 
-/// `root nleaves card sum`
+/// `root nleaves card sum wsum sqsum` (of `as_bitmap()`)
 fn acc_str(acc: &BitmapAccumulator) -> String {
 	let nleaves = pmmr::n_leaves(acc.readonly_pmmr().unpruned_size());
 	let bm = match catch(AssertUnwindSafe(|| acc.as_bitmap())) {
 		Ok(Ok(b)) => {
 			let sum: u64 = b.iter().map(|x| x as u64).sum();
-			format!("{} {}", b.cardinality(), sum)
+			// rank-weighted sum and sum of squares: a fingerprint of the WHOLE derived bitmap
+			let mut w: u64 = 0;
+			let mut q: u64 = 0;
+			for (j, x) in b.iter().enumerate() {
+				w = (w + (j as u64 + 1) * x as u64) % 1_000_000_007;
+				q = (q + (x as u64) * (x as u64)) % 1_000_000_007;
+			}
+			format!("{} {} {} {}", b.cardinality(), sum, w, q)
 		}
 		Ok(Err(_)) => "err".to_string(),
 		Err(_) => "panic".to_string(),
@@ -620,6 +627,85 @@ fn raw(out: &mut Out, rng: &mut Rng, thorough: bool) {
 		}
 	}
 	drop(call);
+	// --- the derived view `as_bitmap()` on chunk patterns with ALL-ZERO chunks in the middle: a
+	// 1024-aligned fully spent run of 1..3 chunks followed by unspent leaves (>= 1025 leaves),
+	// reached by init and by apply; every set bit is printed and compared (not only the root)
+	let mut n_zero_mid = 0u64;
+	let asbitmap_line = |out: &mut Out, acc: &BitmapAccumulator, expect: &[u64], how: &str| {
+		let r = match catch(AssertUnwindSafe(|| acc.as_bitmap())) {
+			Ok(Ok(b)) => {
+				let v: Vec<u64> = b.iter().map(|x| x as u64).collect();
+				if v != expect {
+					out.raw(&format!(
+						"#ORACLE-FAIL C15 as_bitmap() of an accumulator with all-zero chunks in the middle is not the set of set bits ({}): expected {} got {}",
+						how,
+						nat_list(expect),
+						nat_list(&v)
+					));
+				}
+				nat_list(&v)
+			}
+			Ok(Err(_)) => "err".to_string(),
+			Err(_) => "panic".to_string(),
+		};
+		out.line("bitmap asbitmap", &r);
+	};
+	for zero_from in 0..3u64 {
+		for zero_len in 1..=3u64 {
+			for tail in [1u64, 2, 1023, 1024, 1025] {
+				let start = zero_from * NBITS;
+				let end = start + zero_len * NBITS;
+				let size = end + tail;
+				let mut u: Vec<u64> = vec![];
+				for c in 0..zero_from {
+					u.extend([c * NBITS, c * NBITS + 1 + rng.below(1000), c * NBITS + 1023]);
+				}
+				let mut t: Vec<u64> = vec![end, size - 1];
+				if tail > 2 {
+					t.push(end + 1 + rng.below(tail - 2));
+				}
+				t.sort_unstable();
+				t.dedup();
+				u.extend(t);
+				// (a) from scratch
+				out.raw("bitmap new 0");
+				let mut acc = BitmapAccumulator::new();
+				let r = match catch(AssertUnwindSafe(|| acc.init(u.clone(), size))) {
+					Ok(Ok(())) => acc_str(&acc),
+					Ok(Err(_)) => "err".to_string(),
+					Err(_) => "panic".to_string(),
+				};
+				out.line(&format!("bitmap rawinit {} {}", nat_list(&u), size), &r);
+				asbitmap_line(out, &acc, &u, "init");
+				// (b) incrementally: everything unspent in the run first, then the whole run spent
+				let mut full: Vec<u64> = u.iter().cloned().filter(|x| *x < start).collect();
+				full.extend(start..end);
+				full.extend(u.iter().cloned().filter(|x| *x >= end));
+				out.raw("bitmap new 0");
+				let mut acc = BitmapAccumulator::new();
+				let r = match catch(AssertUnwindSafe(|| acc.init(full.clone(), size))) {
+					Ok(Ok(())) => acc_str(&acc),
+					Ok(Err(_)) => "err".to_string(),
+					Err(_) => "panic".to_string(),
+				};
+				out.line(&format!("bitmap rawinit {} {}", nat_list(&full), size), &r);
+				let idx: Vec<u64> = u.iter().cloned().filter(|x| *x >= start).collect();
+				let inval: Vec<u64> = vec![start, start + 1023];
+				let r = match catch(AssertUnwindSafe(|| acc.apply(inval.clone(), idx.clone(), size))) {
+					Ok(Ok(())) => acc_str(&acc),
+					Ok(Err(_)) => "err".to_string(),
+					Err(_) => "panic".to_string(),
+				};
+				out.line(&format!("bitmap rawapply {} {} {}", nat_list(&inval), nat_list(&idx), size), &r);
+				asbitmap_line(out, &acc, &u, "apply spending the whole run");
+				n_zero_mid += 2;
+			}
+		}
+	}
+	out.raw(&format!(
+		"#STAT raw as_bitmap() compared bit by bit on accumulators with 1..3 all-zero chunks in the middle followed by unspent leaves={}",
+		n_zero_mid
+	));
 	out.raw(&format!(
 		"#STAT raw chunk-boundary init/apply calls={} errors={} with the invalidated index at or beyond the size={}",
 		n_edge, n_edge_err, n_beyond
